@@ -41,7 +41,7 @@ pub fn run(ctx: &Ctx) -> i32 {
     let nplain = trees.len();
     trees.extend(families::marked(w));
     let others: Vec<(D, Envelope)> = families::plain(4).iter().map(|m| (m.digest(), bind::build(m, 0))).collect();
-    let acc = trees.par_iter().enumerate().map(|(ti, m)| {
+    let acc = trees.par_iter().enumerate().with_max_len(1).map(|(ti, m)| {
         let mut acc = Acc::new();
         acc.inc("trees");
         let e = bind::build(m, 0);
